@@ -4,10 +4,12 @@ package impl
 
 import (
 	"bytes"
-	"runtime/debug"
 	"container/list"
+	"encoding/binary"
 	"fmt"
 	"io"
+	"os"
+	"runtime/debug"
 	"strings"
 
 	"github.com/mikefarah/yq/v4/pkg/yqlib"
@@ -37,6 +39,9 @@ func Init() {
 	logging.SetLevel(logging.ERROR, "")
 	yqlib.InitExpressionParser()
 	nav = yqlib.NewDataTreeNavigator()
+	if p := os.Getenv("MC_CAREFUL"); p != "" {
+		careful, _ = os.OpenFile(p, os.O_CREATE|os.O_WRONLY, 0o644)
+	}
 }
 
 func Nav() yqlib.DataTreeNavigator { return nav }
@@ -49,6 +54,9 @@ func Parse(expr string) (node *yqlib.ExpressionNode, err error, panicked interfa
 		}
 	}()
 	node, err = yqlib.ExpressionParser.ParseExpression(expr)
+	if careful != nil && node != nil {
+		exprText[node] = expr
+	}
 	return
 }
 
@@ -96,7 +104,30 @@ func Doc(v *val.V) *yqlib.CandidateNode {
 }
 
 // Eval evaluates a parsed expression on the given input nodes (sequence-mode style: one context).
+// careful mode (MC_CAREFUL=<file>): every evaluation is recorded in the file before it starts, so that the parent process can
+// name the evaluation during which a worker died of an unrecoverable runtime error.
+var careful *os.File
+var exprText = map[*yqlib.ExpressionNode]string{}
+
+func noteEval(e *yqlib.ExpressionNode, inputs []*yqlib.CandidateNode) {
+	if careful == nil {
+		return
+	}
+	txt := "expression " + exprText[e] + " on"
+	for _, n := range inputs {
+		txt += " " + ToV(n).JSON()
+	}
+	if len(txt) > 60000 {
+		txt = txt[:60000]
+	}
+	b := make([]byte, 8+len(txt))
+	binary.LittleEndian.PutUint64(b, uint64(len(txt)))
+	copy(b[8:], txt)
+	careful.WriteAt(b, 0)
+}
+
 func Eval(e *yqlib.ExpressionNode, inputs ...*yqlib.CandidateNode) (res []*yqlib.CandidateNode, err error, panicked interface{}) {
+	noteEval(e, inputs)
 	defer func() {
 		if r := recover(); r != nil {
 			panicked = caught(r)
@@ -118,6 +149,7 @@ func Eval(e *yqlib.ExpressionNode, inputs ...*yqlib.CandidateNode) (res []*yqlib
 
 // EvalRO is Eval in a read-only context (DontAutoCreate).
 func EvalRO(e *yqlib.ExpressionNode, inputs ...*yqlib.CandidateNode) (res []*yqlib.CandidateNode, err error, panicked interface{}) {
+	noteEval(e, inputs)
 	defer func() {
 		if r := recover(); r != nil {
 			panicked = caught(r)
